@@ -175,6 +175,13 @@ def run(tier):
     else:
         v.tool_errors.append("no sequence for the self-tests")
 
+    # 5. the dependency map and the BLOCKED / BLOCKING tags across commits, rebuilds and SYNCS
+    #    (TCReplica.DepMapOf; sync driver; every Observe event validated by TraceSync / ObsSync)
+    import depmap_family
+    depmap_family.depmap_conform(v, wd, "depmap-sync-mem", 60 if not thorough else 600, seed_=seed())
+    depmap_family.depmap_conform(v, wd, "depmap-sync-sqlite", 15 if not thorough else 150,
+                                 storage="sqlite", seed_=seed() + 1)
+
     v.finish("model_checking",
              rule="TLC enumerates all sequences of <= 3 (thorough 4) mutator calls over an alphabet "
                   "of 20 (core) / ~115 (full, length <= 2) call shapes from 10 prior states with "
@@ -185,7 +192,11 @@ def run(tier):
                   "from a real replica; after each call the object's map and the recorded "
                   "operations with old values, after each commit the stored task, working-set "
                   "membership and every reader, are validated by TLC against the specification; "
-                  "distinct = sequences run; evaluations = mutator and reader calls",
+                  "distinct = sequences run; evaluations = mutator and reader calls; plus seeded "
+                  "random schedules of status / dependency edits on two replicas with syncs, "
+                  "rebuilds and Observe steps, in which the dependency map handed out by "
+                  "dependency_map(false) and the BLOCKED / BLOCKING tags of get_task must equal "
+                  "TCReplica.DepMapOf of the stored state after every step",
              exhaustive=True,
              assumptions=["values are class tokens with three concrete representatives each",
                           "'now' is any time within the wall-clock window of the run"])
